@@ -12,3 +12,15 @@ open GoSQLXModel
 #print axioms Props.C17.fixL010_line_count
 #print axioms Props.C17.multiline_literal_counterexample
 #print axioms Props.C17.quote_in_comment_counterexample
+#print axioms Lint.fixL001_eq_trimC
+#print axioms Lex.fixL001_bytes
+#print axioms Lex.seq_trim
+#print axioms Lex.fixL001_keeps_tokens
+#print axioms Props.C17.gen_ops_no_ws
+#print axioms Props.C17.l001_keeps_tokens
+#print axioms Lint.fixL003_idempotent
+#print axioms Props.C17.fixL003_idempotent
+#print axioms Lint.fixL002_eq_expC
+#print axioms Lex.seq_exp
+#print axioms Lex.fixL002_keeps_tokens
+#print axioms Props.C17.l002_keeps_tokens
